@@ -269,7 +269,7 @@ func (t *Tree) AddBipartition(n *Node, edges []*Edge, length, support float64) (
 //   - The tip names are different in the different trees
 //   - Incompatible bipartition are generated to build the consensus (It should not happen since cutoff should be >=0.5)
 func Consensus(trees <-chan Trees, cutoff float64) (*Tree, error) {
-	if cutoff < 0.5 || cutoff > 1 {
+	if !(cutoff >= 0.5 && cutoff <= 1) {
 		return nil, errors.New("min frequency for bipartition must be >=0.5 and <=1")
 	}
 	nbtrees := 0
